@@ -305,6 +305,66 @@ theorem evalSubs_counts (subStatus : σ → Id → Status) (subIter : σ → Id 
         have hne : j ≠ a := fun e => hj (e ▸ List.mem_cons_self)
         rw [ih2 _ (fun h => hj (List.mem_cons_of_mem _ h)), hl.bump_other _ _ _ hne, hu']
 
+/-! ### Iteration counts of the selected submodels equal the linker's -/
+
+/-- The linker's own hooks leave the submodels' iteration counters alone (they are the user's code; the linker's
+    bookkeeping of those counters is `resetIter` / `bumpIter` only). -/
+structure HooksKeepIter (subIter : σ → Id → Int) (sel : List Id) : Prop where
+  evalBefore : ∀ o u k j, subIter (L.evalBefore o u sel t k).1 j = subIter u j
+  evalAfter : ∀ o u k j, subIter (L.evalAfter o u sel t k).1 j = subIter u j
+
+/-- One linker iteration that does not raise adds exactly one to the counter of every selected submodel and nothing
+    to the others. -/
+theorem linkerPass_counts (subStatus : σ → Id → Status) (subIter : σ → Id → Int)
+    (hl : Lawful L t subStatus subIter) (sel : List Id) (hk : HooksKeepIter L t subIter sel) (hnd : sel.Nodup)
+    (k : Nat) (u : σ) (h : (linkerPass L o sel t k u).2 = false) :
+    (∀ i, i ∈ sel → subIter (linkerPass L o sel t k u).1 i = subIter u i + 1) ∧
+    (∀ j, j ∉ sel → subIter (linkerPass L o sel t k u).1 j = subIter u j) := by
+  unfold linkerPass at h ⊢
+  have hb := hk.evalBefore o u k
+  rcases hb1 : L.evalBefore o u sel t k with ⟨u1, b1⟩
+  rw [hb1] at h hb
+  cases b1 with
+  | true => simp at h
+  | false =>
+    simp only at h hb ⊢
+    rcases hs : evalSubs L o t k sel u1 with ⟨u2, b2⟩
+    rw [hs] at h
+    cases b2 with
+    | true => simp at h
+    | false =>
+      simp only at h ⊢
+      have hc := evalSubs_counts L o t subStatus subIter hl k sel u1 hnd (by rw [hs])
+      rw [hs] at hc
+      have ha := hk.evalAfter o u2 k
+      constructor
+      · intro i hi; rw [ha, hc.1 i hi, hb]
+      · intro j hj; rw [ha, hc.2 j hj, hb]
+
+/-- After `k` iterations none of which raised, every selected submodel's counter has advanced by exactly `k` (so, from
+    the reset to 0 at the start of `solve_t`, it equals the linker's iteration count), and no other counter moved. -/
+theorem linker_counts_after (subStatus : σ → Id → Status) (subIter : σ → Id → Int)
+    (hl : Lawful L t subStatus subIter) (sel : List Id) (hk : HooksKeepIter L t subIter sel) (hnd : sel.Nodup)
+    (u0 : σ) : ∀ (k : Nat),
+      (∀ i, i < k → ((asInterp L sel).eval o (traj (asInterp L sel) o t u0 i) t (i + 1)).2 = false) →
+      (∀ i, i ∈ sel → subIter (traj (asInterp L sel) o t u0 k) i = subIter u0 i + k) ∧
+      (∀ j, j ∉ sel → subIter (traj (asInterp L sel) o t u0 k) j = subIter u0 j) := by
+  intro k
+  induction k with
+  | zero => intro _; exact ⟨fun i _ => by simp [traj], fun j _ => rfl⟩
+  | succ k ih =>
+    intro hev
+    obtain ⟨ih1, ih2⟩ := ih (fun i hi => hev i (by omega))
+    have hstep := linkerPass_counts L o t subStatus subIter hl sel hk hnd (k + 1)
+      (traj (asInterp L sel) o t u0 k) (hev k (Nat.lt_succ_self _))
+    constructor
+    · intro i hi
+      show subIter (linkerPass L o sel t (k + 1) (traj (asInterp L sel) o t u0 k)).1 i = _
+      rw [hstep.1 i hi, ih1 i hi]; push_cast; omega
+    · intro j hj
+      show subIter (linkerPass L o sel t (k + 1) (traj (asInterp L sel) o t u0 k)).1 j = _
+      rw [hstep.2 j hj, ih2 j hj]
+
 /-! ### Construction -/
 
 theorem foldl_max_ge (l : List Nat) (b : Nat) : b ≤ l.foldl max b ∧ ∀ x ∈ l, x ≤ l.foldl max b := by
@@ -574,6 +634,17 @@ example (u : (Nat → Nat) × (Nat → Int) × (Nat → Status)) :
     (evalSubs exLF {} 1 1 [0, 1] u).1.2.1 1 = u.2.1 1 + 1 ∧ (evalSubs exLF {} 1 1 [0, 1] u).1.2.1 5 = u.2.1 5 :=
   ⟨(evalSubs_counts exLF {} 1 _ _ exLF_lawful 1 [0, 1] u (by decide) rfl).1 1 (by decide),
    (evalSubs_counts exLF {} 1 _ _ exLF_lawful 1 [0, 1] u (by decide) rfl).2 5 (by decide)⟩
+
+private theorem exLF_hooks : HooksKeepIter exLF 1 (fun u i => u.2.1 i) [0, 1] where
+  evalBefore := by intro o u k j; rfl
+  evalAfter := by intro o u k j; rfl
+
+/-- `linker_counts_after`: three iterations of the two selected submodels advance both counters by exactly 3 and leave
+    submodel 5's counter alone. -/
+example (u : (Nat → Nat) × (Nat → Int) × (Nat → Status)) :
+    (traj (asInterp exLF [0, 1]) {} 1 u 3).2.1 1 = u.2.1 1 + 3 ∧ (traj (asInterp exLF [0, 1]) {} 1 u 3).2.1 5 = u.2.1 5 := by
+  have h := linker_counts_after exLF {} 1 _ _ exLF_lawful [0, 1] exLF_hooks (by decide) u 3 (by intro i _; rfl)
+  exact ⟨by simpa using h.1 1 (by decide), h.2 5 (by decide)⟩
 
 /-- `single_model_linker_eq_model`: a linker around the one model `C02.exI` (state = the model's value plus the
     submodel's iteration counter; projection = forget the counter), converging at pass 4. -/
